@@ -666,7 +666,14 @@ def build_registry():
                                                         kw_(lambda r: g_generic(r, meas="noncommuting"), grouping_strategy=None)])
     reg("split_to_single_terms", tr.split_to_single_terms, [G(meas="sum")])
     reg("diagonalize_measurements", tr.diagonalize_measurements, [G(meas="diag"), kw_(lambda r: g_generic(r, meas="diag"), supported_base_obs={qp.Z, qp.X}),
-                                                                  kw_(lambda r: g_generic(r, meas="diag"), to_eigvals=True)])
+                                                                  kw_(lambda r: g_generic(r, meas="diag"), to_eigvals=True),
+                                                                  # partial diagonalisation of symbolic observables (SProd / Pow / Sum of a rotated base)
+                                                                  kw_(lambda r: qp.tape.QuantumScript([qp.RX(0.9, 0), qp.RY(0.4, 1), qp.CNOT([0, 1])],
+                                                                                                      [qp.expval(0.5 * qp.Y(0)), qp.expval(qp.X(1))]), supported_base_obs=[qp.X]),
+                                                                  kw_(lambda r: qp.tape.QuantumScript([qp.RX(0.9, 0), qp.RY(0.4, 1), qp.CNOT([0, 1])],
+                                                                                                      [qp.expval(qp.s_prod(2.0, qp.Y(0) @ qp.X(1))), qp.var(qp.s_prod(-1.0, qp.Hadamard(2)))]), supported_base_obs=[qp.X, qp.Z]),
+                                                                  kw_(lambda r: qp.tape.QuantumScript([qp.RX(0.9, 0), qp.RY(0.4, 1)],
+                                                                                                      [qp.expval(qp.Y(0) + 0.5 * qp.X(1)), qp.expval(qp.pow(qp.Y(2), 3))]), supported_base_obs=[qp.Z, qp.Hadamard])])
     reg("sign_expand", tr.sign_expand, [g_sign])
     reg("defer_measurements", tr.defer_measurements, [T_(g_mcm), kw_(g_mcm, reduce_postselected=False)])
     reg("dynamic_one_shot", tr.dynamic_one_shot, [T_(lambda r: g_mcm(r, shots=r.choice([12, (5, 6)])))])
